@@ -243,9 +243,7 @@ class Prov:
         self.busy = set()
 
     def learner(self, e):
-        while isinstance(e, ast.Subscript):
-            e = e.value
-        return (is_self_attr(e) and e.attr in AC.LEARNER_EXPR_ATTRS) or (isinstance(e, ast.Name) and e.id == "algo")
+        return AC.learner_expr(e, None, self.model)
 
     def prov(self, e, fn, depth=0):
         """(ok, why) for expression e evaluated inside fn."""
